@@ -167,3 +167,40 @@ CLAIMS["C10"] = dict(
     note="sessions.rs is built with rustc against stub crates (cargo cannot fetch pnet/redis/protobuf offline); packet-path code is not exercised; "
          "Redis is an in-process stand-in; remaining lifetimes compared with 3% tolerance.",
 )
+CLAIMS["C06"] = dict(
+    category="model_checking",
+    technique="TLA+ spec CovertPolicy.tla: TLC exhaustive over input forms x ports x resolver scripts x policies (DialedIsChecked, CheckedIsPermitted, ResolvedOnce ...) + execution of every TLC row on the real ParseOrResolveBlocklisted with a scripted DNS server + coupling through the real ingest and Proxy",
+    text="CovertPolicy.tla models the policy as the stages the code applies (parse, domain pattern, port, one resolution, allow-/blocklist, "
+         "literal result), the ingest overwrite and the dial, over symbolic addresses/networks and resolver answers given as a sequence so a "
+         "second lookup is visible; TLC checks the five invariants on 490 880 states (the instance that keeps the client's string and "
+         "re-resolves at dial time violates). 63 k (quick) / 132 k rows are concretised with several spellings per class and executed on the "
+         "real function behind an in-process DNS server, with an independent net/netip containment oracle; coupling rows go through the real "
+         "ingestRegistration and the real Proxy with loopback listeners on a permitted and a forbidden address while the name's answer flips; "
+         "30 k / 300 k random strings x policies incl. the shipped app_config.toml.",
+    note="'accepted unchanged' = same IP and port; DNS through net.DefaultResolver (PreferGo) to a local UDP server; dial observed on 127.0.0.2/3.",
+)
+CLAIMS["C18"] = dict(
+    category="model_checking",
+    technique="TLA+ spec LivenessCache.tla: TLC exhaustive over every cache configuration shape (HitIsFresh, HitIsMeasuredVerdict, MissProbes, Bounded, EvictedNeverServed ...) + replay of every bounded path into the real tester built by liveness.New + trace validation of random histories + concurrent run under -race",
+    text="LivenessCache.tla models the live and non-live caches (off / map / LRU(cap)) with Query = lookupLive, lookupNonLive, probe, store, "
+         "time advance and expiry clean-up against a scripted world; TLC checks ten invariants on 1.35 M states over 49 configuration shapes "
+         "(four broken instances violate). All 69 621 paths of bounded depth + 2 500 simulated behaviours are replayed on the real tester "
+         "returned by the real liveness.New(Config) (so the configuration -> cache kind mapping is under test), time by back-dating cachedTime, "
+         "comparing verdict, error, probe calls, statistics and both caches' contents after every step; 30 random traces are validated by "
+         "Trace_LivenessCache; 8 goroutines hammer one tester under -race with bounds judged at quiescence.",
+    note="phantomIsLive (the network probe) is replaced by a scripted world; LRU recency is inferred by TLC, not projected; concurrent answers are "
+         "judged against the probes actually made, not a linearisation.",
+)
+CLAIMS["C19"] = dict(
+    category="model_checking",
+    technique="TLA+ spec Config.tla: TLC over configuration-key combinations and reload sequences (AcceptedMeansEnforced, HousekeepingTotal, BadReloadChangesNothing, NoCrash) + execution of every TLC row / reload sequence on the real ParseConfig, NewRegistrationManager, stats modules, RemoveOldRegistrations and OnReload with measured enforcement",
+    text="Config.tla models each optional key as unset / zero / valid / malformed, Load, the housekeeping actions and reload sequences with per-part "
+         "versions; TLC checks that an accepted configuration enforces every entry, that no housekeeping action crashes and that a failed reload "
+         "leaves each part's previous version in force (five broken instances violate). 6 853 table rows (incl. the shipped app_config.toml), "
+         "1 728 reload sequences and pairwise-covering samples are executed on the real code: TOML and subnet files are written, ParseConfig -> "
+         "NewRegistrationManager (Fatal paths in a child process) -> every registered stats module's PrintAndReset/PrintStats, "
+         "RemoveOldRegistrations, then ParseConfig + OnReload as main.go does on SIGHUP; enforcement is measured by probing "
+         "ParseOrResolveBlocklisted / IsBlocklistedPhantom before and after; 300 recorded decision traces validated by Trace_Config.",
+    note="main.go's four-line SIGHUP branch is transcribed in the driver; no valid GeoIP database exists offline (unset / empty / missing / garbage "
+         "states only); the OnReload data race is C09's known finding.",
+)
